@@ -96,4 +96,5 @@ def stamp(detector, **kwargs):
     detector.pixel.array = np.full(shape, 20.0 + i)
     detector.signal.array = np.full(shape, 0.5 + i)
     detector.image.array = np.full(shape, 30 + i, dtype=np.uint16)
-    STAMPS.append({n: np.array(getattr(detector, n).array) for n in ("photon", "pixel", "signal", "image")})
+    detector.charge.add_charge_array(np.full(shape, 40.0 + i))      # in place, as the charge-generation models do
+    STAMPS.append({n: np.array(getattr(detector, n).array) for n in ("photon", "pixel", "signal", "image", "charge")})
